@@ -258,7 +258,7 @@ pub fn replay_case(c: &J) -> Result<(), String> {
         Some("grammar_conformance_lexical") => {
             let f = fmts::ascii();
             let x = ln_from_json(&c["value"]);
-            case(&f.l.format_narsese(&x), kind_name(&x))
+            case(&crate::props::c02::format_all_routes(&f, &x)?, kind_name(&x))
         }
         _ => {
             let f = fmts::ascii();
@@ -366,7 +366,15 @@ pub fn run(run: &Run) {
     run.count("lexical_values", lv.len() as u64);
     lv.par_iter().for_each(|x| {
         run.eval(1);
-        let s = f.l.format_narsese(x);
+        // every public formatting route of the lexical formatter must print the same text: all of them are
+        // "the ASCII formatters" of the property
+        let s = match crate::report::quiet_catch(std::panic::AssertUnwindSafe(|| crate::props::c02::format_all_routes(&f, x))) {
+            Ok(Ok(s)) => s,
+            Ok(Err(msg)) | Err(msg) => {
+                run.violation(&format!("the lexical ASCII formatter's routes disagree on {x:?}: {msg}"), json!({"op": "grammar_conformance_lexical", "value": ln_to_json(x), "text": ""}), &[]);
+                return;
+            }
+        };
         distinct.add(&s);
         if let Err(msg) = crate::watch::case(&s, || case(&s, kind_name(x))) {
             fn any_name(t: &LTerm, f: &dyn Fn(&str) -> bool) -> bool {
